@@ -38,6 +38,10 @@ type Idx struct {
 	Unique bool
 	Parts  []IdxPart
 	Where  string
+	// Inline: in DDL written by somebody else (a "legacy" database) the index is an inline UNIQUE
+	// table constraint; SQLite names it sqlite_autoindex_<t>_<n> and Atlas normalises that name to
+	// <table>_<columns>, which is the Name the model carries.
+	Inline bool
 }
 
 // Chk is a CHECK constraint.
@@ -193,6 +197,15 @@ func (t *Tbl) DDL() []string {
 		}
 		defs = append(defs, d+"CHECK ("+c.Expr+")")
 	}
+	for _, i := range t.Idx {
+		if i.Inline {
+			var cols []string
+			for _, p := range i.Parts {
+				cols = append(cols, p.Col)
+			}
+			defs = append(defs, "UNIQUE ("+qs(cols)+")")
+		}
+	}
 	stmt := "CREATE TABLE " + q(t.Name) + " (\n  " + strings.Join(defs, ",\n  ") + "\n)"
 	var opts []string
 	if t.WithoutRowID {
@@ -206,6 +219,9 @@ func (t *Tbl) DDL() []string {
 	}
 	out := []string{stmt}
 	for _, i := range t.Idx {
+		if i.Inline {
+			continue
+		}
 		var parts []string
 		for _, p := range i.Parts {
 			s := q(p.Col)
